@@ -83,6 +83,12 @@ class SymCtx:
     def gt(self, a, b): return _t(a) > _t(b)
     xeq, xne, xle, xlt, xge, xgt = eq, ne, le, lt, ge, gt
 
+    def close(self, a, b, rel=1e-6, abs_=0.0):
+        a, b = _t(a), _t(b)
+        r = lift(Fraction(rel).limit_denominator(10 ** 15))
+        bound = r * z3.If(b >= 0, b, -b) + lift(Fraction(abs_).limit_denominator(10 ** 18))
+        return z3.And(a - b <= bound, b - a <= bound)
+
     def and_(self, *cs): return z3.And([_b(c) for c in cs]) if cs else z3.BoolVal(True)
     def or_(self, *cs): return z3.Or([_b(c) for c in cs]) if cs else z3.BoolVal(False)
     def not_(self, c): return z3.Not(_b(c))
